@@ -165,10 +165,17 @@ pub enum TextCase {
     MustFail { kind: u8, tag: bool, esc: bool, hash: [u8; 32], n: u8 },
 }
 
-const MUT_ALPHABET: &[char] = &[
-    'a', 'f', 'g', 'A', 'F', '0', '9', ' ', '\\', 'n', 'r', '(', ')', '=', 'B', 'L', 'K', 'E', '3', '\n', '\r', '\t', '\0', '\u{e9}', '\u{65e5}', '\u{1F600}', '\u{FFFD}', '/', '.', '-', '"', '\'',
-    '\u{7f}', '\u{80}', 'x', '_',
-];
+/// every ASCII character (0..=127), then multi-byte and special characters
+const MUT_EXTRA: &[char] = &['\u{e9}', '\u{65e5}', '\u{1F600}', '\u{FFFD}', '\u{80}', '\u{ff10}', '\u{ff21}', '\u{2028}', '\u{feff}'];
+const MUT_ALPHABET_LEN: usize = 128 + MUT_EXTRA.len();
+fn mut_char(i: usize) -> char {
+    let i = i % MUT_ALPHABET_LEN;
+    if i < 128 {
+        i as u8 as char
+    } else {
+        MUT_EXTRA[i - 128]
+    }
+}
 
 pub fn base_line(i: u8) -> String {
     let h = "0123456789abcdef0123456789abcdeffedcba9876543210fedcba9876543210";
@@ -187,7 +194,7 @@ pub fn base_line(i: u8) -> String {
 pub fn mutant(base: u8, pos: u16, kind: u8, ch: u8) -> String {
     let b: Vec<char> = base_line(base).chars().collect();
     let pos = pos as usize % (b.len() + 1);
-    let c = MUT_ALPHABET[ch as usize % MUT_ALPHABET.len()];
+    let c = mut_char(ch as usize);
     let mut v = b.clone();
     match kind % 3 {
         0 => {
@@ -215,7 +222,15 @@ fn must_fail_line(kind: u8, tag: bool, esc: bool, hash: &[u8; 32], n: u8) -> (St
         2 => (format!("{}{}", good, &good[..1 + n as usize % 8]), "name".into(), "hash field too long"),
         3 => {
             let mut h: Vec<char> = good.chars().collect();
-            h[n as usize % 64] = ['g', 'G', 'z', ' ', '-', '_', '\t', 'x'][n as usize % 8];
+            // one or two positions get an ASCII character that is not a lower-case hex digit (position and character vary independently)
+            let non_hex = |b: u8| -> char {
+                let all: Vec<char> = (0u8..128).map(|c| c as char).filter(|c| !matches!(c, '0'..='9' | 'a'..='f')).collect();
+                all[b as usize % all.len()]
+            };
+            h[n as usize % 64] = non_hex(hash[3]);
+            if hash[1] % 2 == 1 {
+                h[hash[2] as usize % 64] = non_hex(hash[4]);
+            }
             (h.into_iter().collect(), "name".into(), "non-hex digit in hash field")
         }
         4 => {
@@ -332,7 +347,7 @@ fn mutant_items(tier: Tier) -> Box<dyn Iterator<Item = TextCase>> {
                     v.push(TextCase::Mutant { base, pos, kind, ch: 0 });
                     continue;
                 }
-                for ch in 0..MUT_ALPHABET.len() as u8 {
+                for ch in 0..MUT_ALPHABET_LEN as u8 {
                     v.push(TextCase::Mutant { base, pos, kind, ch });
                 }
             }
@@ -365,7 +380,7 @@ pub fn subs() -> Vec<Box<dyn DynSub>> {
         }),
         Box::new(EnumSub::<TextCase> {
             name: "mutants-enumerated",
-            rule: "enumeration: every single-character replacement and insertion (36-character alphabet incl. multi-byte, NUL, U+FFFD, CR, LF) and every deletion at every position of 4 (quick) / 8 (thorough) valid base lines (plain, tag, escaped plain, escaped tag, double-space path, ') = ' in path, CRLF, non-ASCII); same oracle; non-trivial = mutant whose verdict changes to rejected",
+            rule: "enumeration: every single-character replacement and insertion (all 128 ASCII characters plus 9 multi-byte/special ones incl. U+FFFD, full-width digits, BOM) and every deletion at every position of 4 (quick) / 8 (thorough) valid base lines (plain, tag, escaped plain, escaped tag, double-space path, ') = ' in path, CRLF, non-ASCII); same oracle; non-trivial = mutant whose verdict changes to rejected",
             items: mutant_items,
             classify: classify_text,
             check: check_text,
